@@ -6,7 +6,17 @@
  *        poll with ABT_eventual_test; y != 0: one tasklet calls ABT_eventual_wait (must be rejected).  Main resets.
  *   fut: x = num_compartments of the future F0 (0, 1, 2, 5, ...); every phase performs x + `setters` ABT_future_set calls
  *        (the `setters` surplus ones must fail) spread over up to 4 setter actors; y&1: a tasklet calls ABT_future_wait
- *        (rejected); y&2: the future has no callback.
+ *        (rejected); y&2: the future has no callback.  The callback contains a schedule point (a callback takes time):
+ *        "ready" must not be observable by a lock-free ABT_future_test before the callback has *completed*; ULT / external
+ *        testers may poll until ready.
+ *   y&4 (fut): concurrent reset.  Every phase has no waiters (reset with a blocked waiter is undefined) and one extra
+ *        actor that calls ABT_future_reset once some sets of the phase have begun, concurrently with the others; the
+ *        outcome (successful sets, callbacks, final counter) must be explained by a linearisation of the sets and the
+ *        reset that respects real time.
+ *   y&8: "wait; free".  The last phase has exactly the sets that make the object ready, one waiter and nobody else; the
+ *        waiter frees the object as soon as its wait has returned, i.e. possibly while the setter that woke it is still
+ *        inside set.  `free` is interposed for this program: the freed object is poisoned and kept (never reused), every
+ *        atomic operation on it after the free, and every plain write (checked at the end), is a write after free.
  * Monitors are plain C counters: under vsched a statement sequence without a hook point is atomic. */
 #include "sc_common.h"
 #include <sched.h>
@@ -36,7 +46,69 @@ static const char *rcname(int rc, char *buf)
     }
 }
 
-enum { R_SET = 0, R_WAIT, R_TEST, R_TASKWAIT };
+/* ------------------------------------------------------------------------------- quarantining `free`
+ * The program defines `free` itself (glibc: the allocator proper stays reachable as __libc_free).  A block that was
+ * registered before the library frees it is poisoned and never handed back, so nothing else can legitimately live at
+ * that address afterwards. */
+extern void __libc_free(void *);
+#define QMAX 4
+#define POISON 0xDD
+static struct {
+    unsigned char *base;
+    size_t size;
+    int freed;
+} quar[QMAX];
+static int nquar;
+static void quarantine(void *p, size_t size)
+{
+    if (p && size && nquar < QMAX) {
+        quar[nquar].base = (unsigned char *)p;
+        quar[nquar].size = size;
+        quar[nquar].freed = 0;
+        nquar++;
+    }
+}
+void free(void *p)
+{
+    for (int i = 0; i < nquar; i++)
+        if (p && quar[i].base == (unsigned char *)p && !quar[i].freed) {
+            memset(p, POISON, quar[i].size);
+            quar[i].freed = 1;
+            return;
+        }
+    __libc_free(p);
+}
+/* every atomic operation of a controlled thread, just before it executes */
+static void uaf_monitor(int kind, int width, const volatile void *addr, uint64_t x, uint64_t y)
+{
+    (void)width;
+    (void)x;
+    (void)y;
+    static const char *opn[] = { "?", "load", "store", "clear", "tas", "cas", "fadd", "fsub", "for", "fand", "fxor", "xchg" };
+    const unsigned char *c = (const unsigned char *)addr;
+    for (int i = 0; i < nquar; i++)
+        if (quar[i].freed && c >= quar[i].base && c < quar[i].base + quar[i].size)
+            vs_fail("use after free: atomic %s at offset %zu of the freed %s (block %d, %zu bytes) by a caller still inside the object",
+                    kind >= 0 && kind < 12 ? opn[kind] : "op", (size_t)(c - quar[i].base), i == 0 ? "object" : "buffer", i,
+                    quar[i].size);
+}
+static void quarantine_check(void)
+{
+    for (int i = 0; i < nquar; i++) {
+        if (!quar[i].freed)
+            continue;
+        for (size_t k = 0; k < quar[i].size; k++)
+            if (quar[i].base[k] != POISON) {
+                vs_fail("write after free: offset %zu of freed block %d (%zu bytes) was modified after the free", k, i, quar[i].size);
+                break;
+            }
+    }
+}
+
+static int racy_reset;  /* y&4 */
+static int free_by_waiter, free_phase, freed_by_waiter; /* y&8; the current phase is the free phase; done */
+
+enum { R_SET = 0, R_WAIT, R_TEST, R_TASKWAIT, R_RESET };
 typedef struct {
     int role, nops;
 } roleinfo;
@@ -105,6 +177,14 @@ static void ev_body(actor *a)
         e_started++;
         e_started_mask |= 1u << me;
         int rc = ABT_eventual_set(E0, e_nbytes ? (void *)e_val[me] : NULL, e_nbytes);
+        if (free_phase) {
+            /* the woken waiter may free the eventual at any moment from now on: the object is not looked at any more */
+            e_succ += rc == ABT_SUCCESS;
+            e_winner = me;
+            VSA_CHECK(rc == ABT_SUCCESS, "E0: the only ABT_eventual_set of the phase returned %d", rc);
+            vs_note("apiRet set E0 %s %s", rcname(rc, b), hexbuf(e_val[me], e_nbytes, h));
+            return;
+        }
         if (rc == ABT_SUCCESS) {
             e_succ++;
             e_winner = me;
@@ -133,6 +213,16 @@ static void ev_body(actor *a)
         if (v != (void *)0x1)
             check_value(a, "wait", v);
         vs_note("apiRet wait E0 %s %s", rcname(rc, b), hexbuf(pE->value, e_nbytes, h));
+        if (free_phase) {
+            /* the usual idiom: wait, then free.  ABT_eventual_free has to cope with the setter still being inside set */
+            quarantine(pE, sizeof(ABTI_eventual));
+            quarantine(pE->value, (size_t)e_nbytes);
+            vs_note("apiCall free E0");
+            int rcf = ABT_eventual_free(&E0);
+            freed_by_waiter = 1;
+            vs_note("apiRet free E0 %s", rcname(rcf, b));
+            VSA_CHECK(rcf == ABT_SUCCESS && E0 == ABT_EVENTUAL_NULL, "ABT_eventual_free by A%d returned %d", a->id, rcf);
+        }
     } else if (ri->role == R_TEST) {
         for (int k = 0; k < ri->nops; k++) {
             void *v = (void *)0x1;
@@ -176,6 +266,8 @@ static void ev_phase_begin(void)
 static void ev_phase_end(int nset)
 {
     VSA_CHECK(e_started == nset && e_succ == (nset > 0), "E0: phase %d: %d sets, %d succeeded", phase, e_started, e_succ);
+    if (freed_by_waiter)
+        return;
     if (e_winner >= 0 && e_nbytes) {
         VSA_CHECK(!memcmp(pE->value, e_val[e_winner], (size_t)e_nbytes), "E0: final value is not the winner's");
         for (int i = 0; i < MAX_ACTORS; i++)
@@ -189,13 +281,16 @@ static void ev_phase_end(int nset)
 static ABT_future F0;
 static ABTI_future *pF;
 static int f_n, f_hascb;
-static int f_started, f_succ, f_fail, cb_count;
+static int f_started, f_succ, f_fail, f_rets, cb_count, cb_done;
+static int rs_called, rs_done, rs_ret_before, rs_started_at_ret; /* the concurrent reset of a racy phase */
 static void *f_started_vals[64], *f_succ_vals[64], *cb_seen[MAXC];
 static int f_next;
 
 static void fut_cb(void **args)
 {
     cb_count++;
+    /* a callback takes time: other callers run while it is in progress */
+    vs_log("cbBegin F0");
     char line[256];
     int o = 0;
     line[0] = 0;
@@ -210,7 +305,8 @@ static void fut_cb(void **args)
             VSA_CHECK(args[k] != args[i], "F0: callback saw the same value in compartments %d and %d", k, i);
     }
     vs_note("cb F0%s", line);
-    VSA_CHECK(cb_count == 1, "F0: callback ran %d times in phase %d", cb_count, phase);
+    cb_done++;
+    VSA_CHECK(cb_count <= (racy_reset ? 2 : 1), "F0: callback ran %d times in phase %d", cb_count, phase);
 }
 
 static void fut_body(actor *a)
@@ -223,9 +319,10 @@ static void fut_body(actor *a)
             vs_log("apiCall set F0 %" PRIxPTR, (uintptr_t)val);
             f_started_vals[f_started++] = val;
             int rc = ABT_future_set(F0, val);
+            f_rets++;
             if (rc == ABT_SUCCESS) {
                 f_succ_vals[f_succ++] = val;
-                VSA_CHECK(f_succ <= f_n, "F0: set number %d succeeded on a future with %d compartments", f_succ, f_n);
+                VSA_CHECK(f_succ <= (racy_reset ? 2 : 1) * f_n, "F0: set number %d succeeded on a future with %d compartments", f_succ, f_n);
             } else {
                 f_fail++;
                 VSA_CHECK(rc == ABT_ERR_FUTURE, "F0: ABT_future_set returned %d", rc);
@@ -244,10 +341,35 @@ static void fut_body(actor *a)
         VSA_CHECK(rc == ABT_SUCCESS, "ABT_future_wait returned %d", rc);
         VSA_CHECK(f_started >= f_n, "F0: wait by A%d returned after only %d of %d sets began", a->id, f_started, f_n);
         if (f_hascb && f_n > 0)
-            VSA_CHECK(cb_count == 1, "F0: wait by A%d returned but the callback ran %d times", a->id, cb_count);
+            VSA_CHECK(cb_count == 1 && cb_done == 1, "F0: wait by A%d returned but the callback was started %d times and completed %d times",
+                      a->id, cb_count, cb_done);
         vs_note("apiRet wait F0 %s", rcname(rc, b));
+        if (free_phase) {
+            /* wait, then free: ABT_future_free has to cope with the last setter still being inside set */
+            quarantine(pF, sizeof(ABTI_future));
+            quarantine(pF->array, (size_t)f_n * sizeof(void *));
+            vs_note("apiCall free F0");
+            int rcf = ABT_future_free(&F0);
+            freed_by_waiter = 1;
+            vs_note("apiRet free F0 %s", rcname(rcf, b));
+            VSA_CHECK(rcf == ABT_SUCCESS && F0 == ABT_FUTURE_NULL, "ABT_future_free by A%d returned %d", a->id, rcf);
+        }
+    } else if (ri->role == R_RESET) {
+        /* reset concurrently with the sets of this phase: once `nops` of them have begun (tasklets cannot wait) */
+        for (int spin = 0; a->kind != AK_TASK && f_started < ri->nops && spin < 400; spin++)
+            relax(a);
+        vs_log("apiCall reset F0");
+        rs_called = 1;
+        rs_ret_before = f_rets;
+        int rc = ABT_future_reset(F0);
+        rs_started_at_ret = f_started;
+        rs_done = 1;
+        vs_note("apiRet reset F0 %s", rcname(rc, b));
+        VSA_CHECK(rc == ABT_SUCCESS, "ABT_future_reset returned %d", rc);
     } else if (ri->role == R_TEST) {
-        for (int k = 0; k < ri->nops; k++) {
+        /* nops < 0: poll until ready (bounded) */
+        int until = ri->nops < 0, npoll = until ? 60 : ri->nops;
+        for (int k = 0; k < npoll; k++) {
             ABT_bool ready = 77;
             vs_log("apiCall test F0");
             int succ0 = f_succ;
@@ -256,11 +378,15 @@ static void fut_body(actor *a)
             if (ready == ABT_TRUE) {
                 VSA_CHECK(f_started >= f_n, "F0: test reported ready after only %d of %d sets began", f_started, f_n);
                 if (f_hascb && f_n > 0)
-                    VSA_CHECK(cb_count == 1, "F0: test reported ready but the callback ran %d times", cb_count);
+                    VSA_CHECK(cb_done >= 1 && (racy_reset || (cb_count == 1 && cb_done == 1)),
+                              "F0: test by A%d reported ready but the callback was started %d times and completed %d times", a->id,
+                              cb_count, cb_done);
             } else {
-                VSA_CHECK(succ0 < f_n, "F0: test reported not ready although %d sets had returned", succ0);
+                VSA_CHECK(succ0 < f_n || rs_called, "F0: test reported not ready although %d sets had returned", succ0);
             }
             vs_note("apiRet test F0 %s %d", rcname(rc, b), ready == ABT_TRUE);
+            if (until && ready == ABT_TRUE)
+                break;
             if (a->kind != AK_TASK)
                 relax(a);
         }
@@ -272,18 +398,45 @@ static void fut_body(actor *a)
     }
 }
 
+static int imin(int x, int y) { return x < y ? x : y; }
 static void fut_phase_begin(void)
 {
-    f_started = f_succ = f_fail = cb_count = 0;
+    f_started = f_succ = f_fail = f_rets = cb_count = cb_done = 0;
+    rs_called = rs_done = rs_ret_before = rs_started_at_ret = 0;
     memset(cb_seen, 0, sizeof cb_seen);
 }
 static void fut_phase_end(int total)
 {
+    if (racy_reset) {
+        /* linearisability of `total` sets and one reset.  k = number of sets that take effect before the reset: at least
+         * the sets that had returned when the reset was called, at most those that had begun when it returned.  Then
+         * min(k, n) + min(total - k, n) sets succeed, the callback runs once per completed filling, and the counter ends
+         * at min(total - k, n). */
+        int c = freed_by_waiter ? -1 : (int)pF->counter.val, ok = 0;
+        VSA_CHECK(rs_done == 1 && f_started == total && f_rets == total && f_succ + f_fail == total,
+                  "F0: phase %d: %d sets begun, %d returned (%d ok, %d failed), reset done=%d", phase, f_started, f_rets, f_succ, f_fail, rs_done);
+        for (int k = rs_ret_before; k <= rs_started_at_ret && k <= total; k++) {
+            int cbexp = (f_hascb && f_n > 0) ? (k >= f_n) + (total - k >= f_n) : 0;
+            if (f_succ == imin(k, f_n) + imin(total - k, f_n) && c == imin(total - k, f_n) && cb_done == cbexp && cb_count == cbexp)
+                ok = 1;
+        }
+        VSA_CHECK(ok, "F0: phase %d: no linearisation of %d sets and a concurrent reset explains the outcome: %d sets succeeded, %d "
+                      "callbacks, final counter %d (compartments=%d; %d sets had returned when the reset was called, %d had begun "
+                      "when it returned)", phase, total, f_succ, cb_done, c, f_n, rs_ret_before, rs_started_at_ret);
+        char line[256];
+        int o = 0;
+        line[0] = 0;
+        for (int i = 0; i < c && i < MAXC; i++)
+            o += sprintf(line + o, " %" PRIxPTR, (uintptr_t)pF->array[i]);
+        vs_note("arr F0%s", line);
+        return;
+    }
     int expect = total < f_n ? total : f_n;
     VSA_CHECK(f_started == total && f_succ == expect && f_fail == total - expect, "F0: phase %d: %d sets, %d ok, %d failed (compartments=%d)",
               phase, f_started, f_succ, f_fail, f_n);
     int cbexp = (f_hascb && f_n > 0 && total >= f_n) ? 1 : 0;
-    VSA_CHECK(cb_count == cbexp, "F0: callback ran %d times in phase %d, expected %d", cb_count, phase, cbexp);
+    VSA_CHECK(cb_count == cbexp && cb_done == cbexp, "F0: callback started %d times, completed %d times in phase %d, expected %d", cb_count,
+              cb_done, phase, cbexp);
     if (cbexp) {
         /* the callback saw exactly the values of the successful sets */
         for (int i = 0; i < f_n; i++) {
@@ -293,6 +446,8 @@ static void fut_phase_end(int total)
             VSA_CHECK(found == 1, "F0: callback compartment %d = %p is not the value of exactly one successful set", i, cb_seen[i]);
         }
     }
+    if (freed_by_waiter)
+        return;
     char line[256];
     int o = 0;
     line[0] = 0;
@@ -394,8 +549,10 @@ int main(int argc, char **argv)
         nsetact = nset;
     }
     int taskwait = (y & 1) ? 1 : 0;
-    int n = nsetact + nwait + ntest + taskwait;
-    if (n > MAX_ACTORS) {
+    racy_reset = isfut && (y & 4) && !(y & 8);
+    free_by_waiter = (y & 8) ? 1 : 0;
+    vs_set_atomic_fn(uaf_monitor);
+    if (nsetact + nwait + ntest + taskwait + 1 > MAX_ACTORS) {
         fprintf(stderr, "too many actors\n");
         return 2;
     }
@@ -405,8 +562,23 @@ int main(int argc, char **argv)
             fut_phase_begin();
         else
             ev_phase_begin();
+        /* the composition of this phase */
+        free_phase = free_by_waiter && phase == nphases - 1;
         int total = isfut ? f_n + nset : nset;
-        vs_note("phase %d setters=%d waiters=%d testers=%d taskwait=%d total_sets=%d", phase, nsetact, nwait, ntest, taskwait, total);
+        int p_set = nsetact, p_wait = nwait, p_test = ntest, p_task = taskwait, p_reset = 0;
+        if (free_phase) {
+            /* exactly the sets that make the object ready, one waiter who frees, nobody else */
+            total = isfut ? f_n : 1;
+            p_set = total < nsetact ? total : nsetact;
+            p_wait = 1;
+            p_test = p_task = 0;
+        } else if (racy_reset) {
+            p_wait = p_task = 0;
+            p_reset = 1;
+        }
+        int n = p_set + p_wait + p_test + p_task + p_reset;
+        vs_note("phase %d setters=%d waiters=%d testers=%d taskwait=%d total_sets=%d resetters=%d free=%d", phase, p_set, p_wait, p_test,
+                p_task, total, p_reset, free_phase);
         /* roles in a random order so that creation order does not favour anybody */
         int order[MAX_ACTORS];
         for (int i = 0; i < n; i++)
@@ -424,25 +596,31 @@ int main(int argc, char **argv)
             int kr = sc_rnd(100);
             a->es = sc_rnd(nes);
             a->body = isfut ? fut_body : ev_body;
-            if (r < nsetact) {
+            if (r < p_set) {
                 ri->role = R_SET;
                 if (isfut)
-                    ri->nops = total / nsetact + (r < total % nsetact);
+                    ri->nops = total / p_set + (r < total % p_set);
                 else
-                    ri->nops = 1 + (sc_rnd(4) == 0);
+                    ri->nops = free_phase ? 1 : 1 + (sc_rnd(4) == 0);
                 a->kind = kr < extpct ? AK_EXT : (kr < extpct + taskpct ? AK_TASK : AK_ULT);
-            } else if (r < nsetact + nwait) {
+            } else if (r < p_set + p_wait) {
                 ri->role = R_WAIT;
                 ri->nops = 1;
                 a->kind = kr < extpct ? AK_EXT : AK_ULT;
-            } else if (r < nsetact + nwait + ntest) {
+            } else if (r < p_set + p_wait + p_test) {
                 ri->role = R_TEST;
                 ri->nops = 1 + sc_rnd(3);
                 a->kind = kr < extpct ? AK_EXT : (kr < extpct + taskpct ? AK_TASK : AK_ULT);
-            } else {
+                if (isfut && a->kind != AK_TASK && sc_rnd(2))
+                    ri->nops = -1; /* poll until ready */
+            } else if (r < p_set + p_wait + p_test + p_task) {
                 ri->role = R_TASKWAIT;
                 ri->nops = 1;
                 a->kind = AK_TASK;
+            } else {
+                ri->role = R_RESET;
+                ri->nops = sc_rnd(total + 1); /* reset once this many sets have begun */
+                a->kind = kr < extpct ? AK_EXT : (kr < extpct + taskpct ? AK_TASK : AK_ULT);
             }
             vs_note("actor A%d kind=%s es=%d", i, AKN[a->kind], a->es);
         }
@@ -451,7 +629,7 @@ int main(int argc, char **argv)
         if (isfut)
             fut_phase_end(total);
         else
-            ev_phase_end(nset);
+            ev_phase_end(total);
         base += n;
         /* reset by the main ULT; the last phase's state stays for the free */
         if (phase + 1 < nphases) {
@@ -474,13 +652,18 @@ int main(int argc, char **argv)
             }
         }
     }
-    vs_note("apiCall free %s", isfut ? "F0" : "E0");
-    if (isfut)
-        ABT_OK(ABT_future_free(&F0));
-    else
-        ABT_OK(ABT_eventual_free(&E0));
+    if (free_by_waiter) {
+        VSA_CHECK(freed_by_waiter == 1, "the waiter of the last phase did not free the object");
+    } else {
+        vs_note("apiCall free %s", isfut ? "F0" : "E0");
+        if (isfut)
+            ABT_OK(ABT_future_free(&F0));
+        else
+            ABT_OK(ABT_eventual_free(&E0));
+    }
     sc_stop_streams();
     ABT_finalize();
+    quarantine_check();
     int rc = vsa_end();
     if (rc)
         fprintf(stderr, "MONITOR: %s\n", vs_first_failure());
